@@ -80,6 +80,13 @@ def run(repo, res):
             res.check('C03-R5', '%s %s exit dropped' % (R.method_name(repo, cls), path), False, line[0], line[1],
                       'the region left current after the statement block %s.%s is discarded: the join keeps the stale region: definitions overwritten inside the block stay listed (phantom) and names bound there look undefined' % (cls, path))
     res.ob('C03-R5', 'statement-block continuity', True, sample='every statement block\'s exit region is consumed by a join, the next block or the scope')
+    for (cls, blk, reader), r in sorted(R.shadow_records(repo).items()):
+        bad = r['bad']
+        res.check('C03-R1', '%s %s lookup order from %s' % (R.method_name(repo, cls), blk, reader), not bad, r['line'][0], r['line'][1],
+                  'a read in %s.%s reaches the region of %s (walk %s) without first consulting the region(s) %s of the later '
+                  'statements of the same block: a binding overwritten on every path stays listed (phantom definition)'
+                  % (cls, reader, bad[0][1] if bad else '', bad[0][3] if bad else '', bad[0][2] if bad else ''),
+                  sample='%s: from %s the later statements of %s shadow the earlier ones' % (cls, reader, blk))
     brecs = R.binder_records(repo)
     for (cls, kind, path), r in sorted(brecs.items()):
         if r['n'] == 0 or r['missing']:
